@@ -201,19 +201,23 @@ impl PartialEq for Value_ {
             }
             (
                 Value_::EnumVariant {
-                    runtime_type: self_runtime_type,
+                    type_name: self_type_name,
                     variant_idx: self_variant_idx,
                     payload: self_payload,
                     ..
                 },
                 Value_::EnumVariant {
-                    runtime_type: other_runtime_type,
+                    type_name: other_type_name,
                     variant_idx: other_variant_idx,
                     payload: other_payload,
                     ..
                 },
             ) => {
-                self_runtime_type == other_runtime_type
+                // Compare the enum itself, not the runtime type with
+                // its inferred type arguments. Otherwise
+                // `Some([]) == Some([1].slice(1, 1))` is false even
+                // though the payloads are equal.
+                self_type_name == other_type_name
                     && self_variant_idx == other_variant_idx
                     && self_payload == other_payload
             }
@@ -231,16 +235,16 @@ impl PartialEq for Value_ {
             ) => self_runtime_type == other_runtime_type && self_variant_idx == other_variant_idx,
             (
                 Value_::Struct {
+                    type_name: self_type_name,
                     fields: self_fields,
-                    runtime_type: self_runtime_type,
                     ..
                 },
                 Value_::Struct {
+                    type_name: other_type_name,
                     fields: other_fields,
-                    runtime_type: other_runtime_type,
                     ..
                 },
-            ) => self_runtime_type == other_runtime_type && self_fields == other_fields,
+            ) => self_type_name == other_type_name && self_fields == other_fields,
             _ => false,
         }
     }
